@@ -159,6 +159,12 @@ static void do_line(char *work, const char *orig) {
 		r = len ? KSI_TlvElement_parse(raw, len, &e) : KSI_INVALID_ARGUMENT;
 		printf("E%d", r);
 		if (r == KSI_OK) { unsigned char *buf = malloc(0x10000 + 8); size_t sl = 0; printf(" S%d", KSI_TlvElement_serialize(e, buf, 0x10000 + 8, &sl, 0)); free(buf); }
+		if (r == KSI_OK) {
+			/* into a heap buffer of exactly the size the serializer itself asks for; then with its own copy of the octets (detach) */
+			size_t need = 0; int q = KSI_TlvElement_serialize(e, NULL, 0, &need, 0);
+			if (q == KSI_OK) { unsigned char *b2 = malloc(need ? need : 1); size_t s2 = 0; printf(" X%d", KSI_TlvElement_serialize(e, b2, need, &s2, 0)); free(b2); } else printf(" Q%d", q);
+			printf(" D%d", KSI_TlvElement_detach(e));
+		}
 		KSI_TlvElement_free(e); free(raw);
 	} else if (n >= 2 && !strcmp(w[0], "uri")) {
 		char *s = text(w[1]); char *sc = NULL, *ho = NULL, *pa = NULL; unsigned port = 0;
